@@ -384,6 +384,8 @@ def run(run):
     minmax.presorted_layer(run, rt, run.tier == "quick")
     import loc_layer
     loc_layer.loc_layer(run, rt, run.tier == "quick")
+    import align_layer
+    align_layer.align_layer(run, rt, run.tier == "quick")
     quick = run.tier == "quick"
     progcheck.run_programs(run, {"C06"}, 120 if quick else 3000, profile="l1", own={"C06"}, with_steps=False)
     progcheck.run_programs(run, {"C06"}, 80 if quick else 2000, profile="l2", own={"C06"}, with_steps=False)
